@@ -220,6 +220,9 @@ func (W) Gen(prop string, seed uint64, tier string) *world.Plan {
 		}
 	}
 	p.Tasks = []world.Task{{Role: "history", Ops: ops}}
+	if r.Chance(350) {
+		p.Knobs = map[string]int{"ikept": 1}
+	}
 	return p
 }
 
@@ -249,6 +252,8 @@ type exec struct {
 	initial  map[vkey][2]uintptr
 	at       string
 	keep     []interface{}
+	ikept    bool
+	kept     map[vkey]*mocker.CachedInterfaceMocker
 }
 
 func words(p interface{}) [2]uintptr {
@@ -441,7 +446,21 @@ func (x *exec) step(op world.Op) {
 		for i := range res {
 			res[i] = val.Gen(r, m.Typ.Out(i))
 		}
-		im := x.builder(op.B).Interface(it.Vars[op.N]).Method(m.Name)
+		var cim *mocker.CachedInterfaceMocker
+		if x.ikept {
+			// the caller keeps the mocker returned by its first Interface(&v) lookup and goes on using it,
+			// also after Reset (the statement's "histories of apply/stub/reset")
+			cim = x.kept[k]
+			if cim == nil {
+				cim = x.builder(op.B).Interface(it.Vars[op.N])
+				x.kept[k] = cim
+			} else {
+				x.env.Probe("interface_mocker_handle_reused")
+			}
+		} else {
+			cim = x.builder(op.B).Interface(it.Vars[op.N])
+		}
+		im := cim.Method(m.Name)
 		if op.K == "iapply" {
 			rec := &ifc.Rec{Results: res}
 			cb := m.Mk(rec)
@@ -569,7 +588,8 @@ func (W) Exec(p *world.Plan, env *world.Env) {
 		return
 	}
 	ifc.ResetVars()
-	x := &exec{env: env, builders: map[int]*mocker.Builder{}, vs: map[vkey]*vstate{}, initial: map[vkey][2]uintptr{}}
+	x := &exec{env: env, builders: map[int]*mocker.Builder{}, vs: map[vkey]*vstate{}, initial: map[vkey][2]uintptr{},
+		ikept: p.Knobs["ikept"] == 1, kept: map[vkey]*mocker.CachedInterfaceMocker{}}
 	for t, it := range ifc.Ifaces {
 		for n := range it.Vars {
 			x.initial[vkey{t, n}] = words(it.Vars[n])
